@@ -42,6 +42,7 @@ func docCase(c Case, e *env) (*docGen, string, string) {
 		g.noTitle = c.ID%3 == 0
 		g.tightInline = true
 	}
+	g.literalWords = e.prop == "C03"
 	g.listMarkupText = e.prop == "C07"
 	g.blanksBetween = e.prop == "C03" || e.prop == "C02" || e.prop == "C09"
 	g.wrapIn = c.str("wrap", "")
